@@ -3,6 +3,7 @@ import Dcg.Proofs.EnumSites
 import Dcg.Props.C09Order
 import Dcg.Props.C07
 import Dcg.Props.C10
+import Dcg.Proofs.TypesLiteral
 /-
 C09 — enumerations keep exactly the schema's set of values.
 Only property theorems live here; helper lemmas are in Dcg/Proofs/Enum.lean.
@@ -660,5 +661,110 @@ example :
   decide
 
 end PassOrder
+
+/-! ### literal mode inside a union: the text surgery of `get_optional_type` keeps the Literal verbatim
+
+In literal mode an enum that stands in an anyOf / oneOf with another type is the member
+`Literal['a', 'b,c', …]` of a rendered `Union[…]`; for an optional / nullable member
+`get_optional_type` → `_remove_none_from_union` re-parses that TEXT.  `Dcg.Model.Types.removeNoneU` is
+the character-level transliteration of the depth-counting splitter (tied to the real function on
+every run by the campaign `types.litunion`). -/
+section LiteralUnion
+open Dcg.Model.Types Dcg.Proofs.Types Dcg.Proofs.TypesCall Dcg.Proofs.TypesLiteral
+
+/-- FULL-STRENGTH statement (false of the code, see `literal_union_bracket_witness`): whatever the
+items, a Literal member of a union of closed members comes back verbatim. -/
+def LiteralUnionKeptAlways : Prop :=
+  ∀ (pre post items : List Str), (∀ f ∈ pre ++ post, closedLeaf f = true) →
+    removeNoneU (unionOf (pre ++ [literalText items] ++ post)) =
+      mkText (notNone pre ++ [literalText items] ++ notNone post)
+
+/-- **the Literal member is kept verbatim** (partial: under the decidable `literalItemsOK`): for ALL
+item texts whose brackets are closed relative to the inside of `Literal[` — any commas, any blanks
+around them, the words `None`, `Optional[…]`, `Union[…]`, ` | `, quotes — and all other members
+before and after it that are closed leaves (`None` among them), `_remove_none_from_union` returns
+the three-way end over: the members before it that are not `None`, the Literal character for
+character, the members after it that are not `None`. -/
+theorem literal_union_kept_verbatim_partial (pre post items : List Str)
+    (hother : ∀ f ∈ pre ++ post, closedLeaf f = true) (hok : literalItemsOK items = true) :
+    removeNoneU (unionOf (pre ++ [literalText items] ++ post)) =
+      mkText (notNone pre ++ [literalText items] ++ notNone post) := by
+  rw [removeNoneU_leaves _ (by
+    intro f hf
+    simp only [List.mem_append, List.mem_singleton] at hf
+    rcases hf with (h | h) | h
+    · exact hother f (by simp [h])
+    · subst h; exact closedLeaf_literal items hok
+    · exact hother f (by simp [h]))]
+  rw [notNone_append, notNone_append, notNone_literal]
+
+/-- non-vacuity: values with a tight comma, a blank before the comma, two blanks after it, the word
+None between commas, balanced brackets, `Union[a, None]`, a pipe; next to `int` and `None` -/
+example : literalItemsOK ["'p,q'".toList, "'p ,q'".toList, "'p,  q'".toList, "'k, None, m'".toList,
+      "'[a, b]'".toList, "'Union[a, None]'".toList, "'s | t'".toList] = true ∧
+    (∀ f ∈ ["None".toList] ++ ["int".toList], closedLeaf f = true) := by decide
+
+/-- the same through `get_optional_type`: `Optional[` + the kept members + `]`, the Literal verbatim -/
+theorem literal_union_optional_partial (pre post items : List Str)
+    (hother : ∀ f ∈ pre ++ post, closedLeaf f = true) (hok : literalItemsOK items = true) :
+    getOptionalType false (unionOf (pre ++ [literalText items] ++ post)) =
+      sOptionalPrefix ++ mkText (notNone pre ++ [literalText items] ++ notNone post) ++ [']'] := by
+  have hk : ∀ f ∈ notNone pre ++ [literalText items] ++ notNone post, closedLeaf f = true ∧ f ≠ sNone := by
+    intro f hf
+    simp only [List.mem_append, List.mem_singleton, notNone, List.mem_filter, bne_iff_ne, ne_eq] at hf
+    rcases hf with (h | h) | h
+    · exact ⟨hother f (by simp [h.1]), h.2⟩
+    · subst h; exact ⟨closedLeaf_literal items hok, literalText_ne_none items⟩
+    · exact ⟨hother f (by simp [h.1]), h.2⟩
+  have hm := mkText_ne_nil_none _ (by simp) hk
+  have hr := literal_union_kept_verbatim_partial pre post items hother hok
+  generalize mkText (notNone pre ++ [literalText items] ++ notNone post) = t at hm hr
+  unfold getOptionalType removeNone
+  simp only [Bool.false_eq_true, if_false, hr]
+  simp [hm.1, hm.2]
+
+/-- values without square brackets are ALWAYS inside the region: no comma / blank / `None` / quote
+pattern can take a bracket-free Literal out of it (the family of the round-6 regression: a splitter
+that normalises the blanks around the commas inside members contradicts this theorem's model) -/
+theorem literal_items_ok_of_bracket_free (items : List Str) (h : ∀ it ∈ items, bracketFree it = true) :
+    literalItemsOK items = true := literalItemsOK_of_bracketFree items h
+
+example : (∀ it ∈ ["'p,q'".toList, "'p ,q'".toList, "', None ,'".toList], bracketFree it = true) := by decide
+
+/-- items that are closed one by one are inside the region (sufficient, not necessary) -/
+theorem literal_items_ok_of_closed_items (items : List Str) (h : ∀ it ∈ items, itemClosed it = true) :
+    literalItemsOK items = true := literalItemsOK_of_closed items h
+
+example : (∀ it ∈ ["'[a, b]'".toList, "'f[1,2]'".toList], itemClosed it = true) ∧
+    literalItemsOK ["'['".toList, "']'".toList] = true ∧ itemClosed "'['".toList = false := by decide
+
+/-- REFUTATION of the full-strength statement (known finding C09-F8, C13's D9): a value with an open
+bracket is outside the region, and `Optional[Union[Literal['x[', 'y'], int]]` loses its `Union[`:
+the two members come back as ONE part. -/
+theorem literal_union_bracket_witness :
+    literalItemsOK ["'x['".toList, "'y'".toList] = false ∧
+    removeNoneU (unionOf ([] ++ [literalText ["'x['".toList, "'y'".toList]] ++ ["int".toList])) =
+      "Literal['x[', 'y'], int".toList ∧
+    ¬ LiteralUnionKeptAlways := by
+  have h1 : literalItemsOK ["'x['".toList, "'y'".toList] = false := by decide
+  have h2 : removeNoneU (unionOf ([] ++ [literalText ["'x['".toList, "'y'".toList]] ++ ["int".toList])) =
+      "Literal['x[', 'y'], int".toList := by decide
+  refine ⟨h1, h2, ?_⟩
+  intro hall
+  have := hall [] ["int".toList] ["'x['".toList, "'y'".toList] (by decide)
+  rw [h2] at this
+  exact absurd this (by decide)
+
+/-- the operator spelling has its own region (`re.split(r"\s*\|\s*")` ignores brackets and quotes):
+inside it commas and brackets are harmless, outside it the VALUES change — `'a|b'` and `'a  |  b'`
+both come back as `'a | b'`, `'a | None | b'` loses its `None` (known finding C09-F8) -/
+theorem literal_pipe_witness :
+    pipeItemsOK ["'p,q'".toList, "'x['".toList, "'s | t'".toList] = true ∧
+    pipeItemsOK ["'a|b'".toList] = false ∧
+    removeNoneB ("Literal['a|b', 'a  |  b'] | int".toList) = "Literal['a | b', 'a | b'] | int".toList ∧
+    removeNoneB ("Literal['a | None | b'] | int".toList) = "Literal['a | b'] | int".toList := by
+  decide
+
+end LiteralUnion
 
 end Dcg.Props.C09
